@@ -294,7 +294,7 @@ func Run(rc *core.RunCtx) {
 		return fmt.Errorf("recovered:%v", err)
 	})
 
-	fault := []string{"none", "truncate-eof", "truncate-err", "rechunk", "content-length", "corrupt", "json-prefix", "invalid-doc", "opname", "after-wrong-shape"}[t.Choose(10, "fault")]
+	fault := []string{"none", "truncate-eof", "truncate-err", "rechunk", "content-length", "corrupt", "json-prefix", "invalid-doc", "opname", "after-wrong-shape", "upgrade-header"}[t.Choose(11, "fault")]
 	// a document cache, as handler.NewDefaultServer configures one
 	if t.Bool(1, 2, "query-cache") {
 		srv.SetQueryCache(lru.New[*ast.QueryDocument](4))
@@ -543,6 +543,16 @@ func Run(rc *core.RunCtx) {
 		if mpf != "none" {
 			faultDesc = mpf + faultDesc
 		}
+	}
+	if fault == "upgrade-header" {
+		// an ordinary HTTP request that carries an Upgrade header: the websocket transport takes
+		// it, the handshake fails, and the client must get one well-formed error
+		srv.AddTransport(transport.Websocket{})
+		hdr.Set("Upgrade", []string{"websocket", "h2c", "WebSocket"}[t.Choose(3, "upgrade-value")])
+		if t.Bool(1, 2, "connection-upgrade") {
+			hdr.Set("Connection", "Upgrade")
+		}
+		faultDesc = "Upgrade: " + hdr.Get("Upgrade")
 	}
 	srv.AddTransport(transport.SSE{})
 	srv.AddTransport(transport.MultipartMixed{})
